@@ -1,6 +1,7 @@
 import Zstd.Driver.Util
 import Zstd.Driver.Spec
 import Zstd.Model.FrameCompressor
+import Zstd.Model.EncCoders
 /-
 engine `enc` (C02, C15, C16): the frame/block level of the encoder.
 
@@ -76,10 +77,7 @@ def buildBlocks (entries : List (Nat × List (Nat × Nat × Nat))) :
 
 /-- (the array is built ONCE by the caller: a `let` inside a function-valued definition would be
 recomputed on every call after the compiler's eta-expansion) -/
-def scriptOf (arr : Array MBlock) (dflt : Nat) (i : Nat) : MBlock :=
-  match arr[i]? with
-  | some b => b
-  | none => ⟨dflt, {}⟩
+abbrev scriptOf := @scriptOfArray
 
 def entropyMarker : Fault := .unimplemented "model:entropy-coder"
 
@@ -117,14 +115,13 @@ def walk : Nat → List Byte → List String → Bool → Option (List String ×
       else walk fuel rest (item :: acc) (exact && ex)
     | _ => none
 
-def run (withValid : Bool) (lvl : Level) (hash : Bool) (w : Nat)
-    (entries : List (Nat × List (Nat × Nat × Nat))) (data : List Byte) (frags : List Nat) : String :=
-  let arr := buildBlocks entries (data.length + 2) 0 data #[]
-  let script := scriptOf arr (entries.getLast?.getD (0, [])).1
+/-- one frame with the REAL entropy coders (`Model/EncCoders.lean`): every block is predicted exactly -/
+def runScript (withValid : Bool) (lvl : Level) (hash : Bool) (w : Nat) (script : Nat → MBlock)
+    (data : List Byte) (frags : List Nat) : String :=
   match frameHeader hash w with
   | .error f => showFault f
   | .ok hdr =>
-    match compressLoop (planEmit withValid lvl) script (data.length + 1) 0 {} [] data frags with
+    match compressLoop (emitBlock lvl compressBlockReal) script (data.length + 1) 0 {} [] data frags with
     | .error f => showFault f
     | .ok r =>
       match walk (r.bytes.length + 1) r.bytes [] true with
@@ -137,12 +134,49 @@ def run (withValid : Bool) (lvl : Level) (hash : Bool) (w : Nat)
         let fr := if exact then Driver.Spec.digest frame else "-"
         s!"ok{valid} hdr={hexOfBytes hdr} blocks={",".intercalate items} cks={cks} frame={fr}"
 
+def run (withValid : Bool) (lvl : Level) (hash : Bool) (w : Nat)
+    (entries : List (Nat × List (Nat × Nat × Nat))) (data : List Byte) (frags : List Nat) : String :=
+  let arr := buildBlocks entries (data.length + 2) 0 data #[]
+  runScript withValid lvl hash w (scriptOf arr (entries.getLast?.getD (0, [])).1) data frags
+
+/-- the built-in matcher (`B`): window and spaces from `Gen.Consts`; the parses come from the C17
+model of `MatchGeneratorDriver` driven the way `compress` / `compress_fastest` drive it.  Returns the
+answer and the matcher afterwards. -/
+def runBuiltin (lvl : Level) (hash : Bool) (d : Model.MG.Driver) (data : List Byte) (frags : List Nat) :
+    String × Model.MG.Driver :=
+  match builtinFrame lvl d data with
+  | .error f => (showFault f, d)
+  | .ok (d', arr) => (runScript false lvl hash d'.windowSize (scriptOf arr Gen.prodSliceSize) data frags, d')
+
+def freshMatcher : Model.MG.Driver := Model.MG.Driver.new Gen.prodSliceSize Gen.prodMaxSlices
+
+def parseJob (s : String) : Option (Level × List Byte × List Nat) :=
+  match s.splitOn ":" with
+  | [l, d, fr] =>
+    (match parseLevel l, bytesOfHex d, parseNatList fr with
+     | some lvl, some data, some frags => some (lvl, data, frags)
+     | _, _, _ => none)
+  | _ => none
+
+/-- frames pushed through ONE compressor object, in order -/
+def runReuse (hash : Bool) : List (Level × List Byte × List Nat) → Model.MG.Driver → List String → List String
+  | [], _, acc => acc.reverse
+  | (lvl, data, frags) :: rest, d, acc =>
+    let (ans, d') := runBuiltin lvl hash d data frags
+    let ans := if ans.startsWith "fault" then "fault" else ans
+    runReuse hash rest d' (ans :: acc)
+
 def handle (cmd : String) (args : List String) : String :=
   match cmd, args with
+  | "run", [l, h, "B", "B", d, fr] =>
+    (match parseLevel l, h.toNat?, bytesOfHex d, parseNatList fr with
+     | some lvl, some hh, some data, some frags => (runBuiltin lvl (hh = 1) freshMatcher data frags).1
+     | _, _, _, _ => badOp)
+  | "reuse", [h, jobs] =>
+    (match h.toNat?, (jobs.splitOn "/").mapM parseJob with
+     | some hh, some js => " | ".intercalate (runReuse (hh = 1) js freshMatcher [])
+     | _, _ => badOp)
   | "run", [l, h, w, sc, d, fr] | "mrun", [l, h, w, sc, d, fr] =>
-    -- `B` = the built-in matcher: window and space size from `Gen.Consts` (production arguments)
-    let w := if w == "B" then toString builtinWindow else w
-    let sc := if sc == "B" then toString Gen.prodSliceSize else sc
     (match parseLevel l, h.toNat?, w.toNat?, parseScript sc, bytesOfHex d, parseNatList fr with
      | some lvl, some hh, some ww, some entries, some data, some frags =>
        run (cmd == "mrun") lvl (hh = 1) ww entries data frags
